@@ -107,6 +107,11 @@ impl SegmentSizes {
         self.cooldown_remaining_packets = 0;
     }
 
+    /// Make the next segment an ordinary one, whatever the configured cooldown is.
+    pub fn skip_next_probe(&mut self) {
+        self.cooldown_remaining_packets = self.cooldown_remaining_packets.max(1);
+    }
+
     pub fn log_debug(&self) -> impl std::fmt::Debug + '_ {
         struct D<'a>(&'a SegmentSizes);
         impl std::fmt::Debug for D<'_> {
